@@ -71,3 +71,109 @@ mod verif_c18 {
   }
   // VERIF-END verif_c18
 }
+
+#[cfg(kani)]
+impl CodeCache {
+  pub fn verif_rom_high_bank(&self) -> u16 { self.code_blocks.verif_rom_high_bank() }
+  pub fn verif_set_rom_high_bank(&mut self, b: u16) { self.code_blocks.verif_set_rom_high_bank(b); }
+}
+
+/// Monitors that replace the three cache entry points in the C03/C04/C09 glue harnesses.
+#[cfg(kani)]
+pub mod verif_monitor {
+  use super::*;
+  pub static mut EXPECTED_BANK: usize = 0x5a5a_0808_0808;
+  pub static mut TAG_OK: bool = false;
+  pub static mut LOOKUPS: usize = 0x5a5a_0909_0909;
+  pub static mut MEM: *mut MemoryAreas = 16usize as *mut MemoryAreas;
+  pub static mut WRITE_ADDR: u16 = 0x1111;
+  pub static mut WRITE_VAL: u8 = 0x22;
+  pub static mut NEXT_IP: u32 = 0x3333_3333;
+  pub static mut ADD_CYCLES: u32 = 0x4444_4444;
+  pub static mut STATUS: u8 = 0x55;
+  pub static mut ENTERED_CACHE: bool = true;
+  pub static mut ENTERED_INTERP: bool = true;
+
+  fn check_tag(c: &CodeCache, ip: usize) {
+    unsafe {
+      LOOKUPS += 1;
+      ENTERED_CACHE = true;
+      if ip >= 0x4000 && ip < 0x8000 && c.verif_rom_high_bank() as usize != EXPECTED_BANK { TAG_OK = false; }
+    }
+  }
+  pub fn get_address_for_ip(c: &CodeCache, ip: usize) -> Option<usize> {
+    check_tag(c, ip);
+    if kani::any() { Some(0) } else { None }
+  }
+  pub fn translate_code_block(c: &mut CodeCache, _code: &Box<[u8]>, ip: usize, _mem: *const MemoryAreas) -> usize {
+    check_tag(c, ip);
+    0
+  }
+  /// Executing a block: an arbitrary guest write below 0x8000 (bank switch), arbitrary successor, arbitrary cost >= 1.
+  pub fn call(_c: &CodeCache, _offset: usize, registers: &mut Registers) -> u8 {
+    unsafe {
+      crate::mem::memory_write_byte(MEM, WRITE_ADDR, WRITE_VAL);
+      registers.ip = NEXT_IP;
+      registers.cycles += ADD_CYCLES;
+      STATUS
+    }
+  }
+  pub fn interp_block(registers: &mut Registers, _mem: *mut MemoryAreas) -> u8 {
+    unsafe {
+      ENTERED_INTERP = true;
+      crate::mem::memory_write_byte(MEM, WRITE_ADDR, WRITE_VAL);
+      registers.ip = NEXT_IP;
+      registers.cycles += ADD_CYCLES;
+      STATUS
+    }
+  }
+}
+
+#[cfg(all(kani, verif_c03))]
+mod verif_c03 {
+  use super::*;
+  use crate::vassert;
+  use crate::verif::vstub;
+  use crate::cart::Header;
+
+  /// L3: the translator reads the same bytes the interpreter fetches and data reads see, for every ROM address and bank state.
+  fn source(kind: u8) {
+    let cart_type = if kind == 1 { let s: u8 = kani::any(); kani::assume(s >= 1 && s <= 3); s } else { let s: u8 = kani::any(); kani::assume(s >= 0x11 && s <= 0x13); s };
+    let rom_code: u8 = kani::any();
+    let h = Header::verif_with(cart_type, rom_code, 0);
+    let mut m = crate::mem::verif_areas(&h);
+    let p = &mut m as *mut MemoryAreas;
+    crate::mem::memory_write_byte(p, 0x0000, kani::any());
+    crate::mem::memory_write_byte(p, 0x2000, kani::any());
+    crate::mem::memory_write_byte(p, 0x4000, kani::any());
+    crate::mem::memory_write_byte(p, 0x6000, kani::any());
+    let ip: usize = kani::any();
+    kani::assume(ip < 0x8000);
+    // arbitrary byte at the cell the data path reads
+    let banks = crate::cart::verif_ref_rom_banks(rom_code);
+    let cell = if ip < 0x4000 { ip } else { (m.get_rom_bank() % banks) * 0x4000 + (ip & 0x3fff) };
+    m.rom[cell] = kani::any();
+    let c = CodeCache::verif_new(64);
+    let seg = c.get_executable_memory_segment(ip, p as *const MemoryAreas);
+    let data = crate::mem::memory_read_byte(p as *const MemoryAreas, ip as u16);
+    let fetch = crate::mem::get_executable_memory_slice(ip, p as *const MemoryAreas);
+    vassert!(seg.len() >= 1 && seg[0] == data, "C03.source.translator_reads_mapped_byte");
+    vassert!(fetch[0] == data, "C03.source.fetch_reads_mapped_byte");
+    vassert!(seg.len() == fetch.len(), "C03.source.same_extent");
+    kani::cover!(ip >= 0x4000, "reached");
+    core::mem::forget(m); core::mem::forget(c);
+  }
+  macro_rules! src {
+    ($name:ident, $k:expr) => {
+      #[kani::proof]
+      #[kani::unwind(6)]
+      #[kani::stub(crate::system::get_rom_buffer, vstub::stub_get_rom_buffer)]
+      #[kani::stub(crate::mem::create_buffer, vstub::stub_create_buffer)]
+      #[kani::stub(crate::devices::video::lcd::LCD::new, vstub::stub_lcd_new)]
+      fn $name() { source($k); }
+    };
+  }
+  src!(c03_source_mbc1, 1);
+  src!(c03_source_mbc3, 3);
+  // VERIF-END verif_c03
+}
